@@ -1,6 +1,8 @@
 import NimaVerif.Lemmas.LayerOps
 /-! The scoped branches of `setValue` / `removeValue`, assembled from dispatch + `onLayer` + traces. -/
 namespace Nima
+-- name tokens are compared by spelling in this file (see `NameCmp` in Model/Edit.lean)
+attribute [local instance] NameCmp.spelled
 
 open Node EditM
 
